@@ -2,7 +2,6 @@
 
 from __future__ import annotations
 
-import gc
 import itertools
 
 import numpy as np
@@ -20,7 +19,9 @@ RULE = (
     "or without MapSpec, zip / outer product / ':' / reductions / permuted output axes / internal axes / generators / "
     "tuple outputs). On top of the program: every 1-D root keeps mapprog's unique strings or gets distinct 3-digit ints "
     "(list or int64 ndarray), functions without MapSpec may return a 1-D/2-D ndarray or a list instead of a string, "
-    "load_intermediate is drawn. The program is run with Pipeline.map(parallel=False, run_folder=F); then "
+    "load_intermediate is drawn; campaign 'zip' additionally zips 1-2 extra 1-D roots (or a 2-D twin of a 2-D parameter) into "
+    "MapSpec functions on indices they already name; campaign 'reintroduced-index' enumerates all 96 four-function chains "
+    "in which an index is reduced away and introduced again by another root. The program is run with Pipeline.map(parallel=False, run_folder=F); then "
     "xarray_dataset_from_results(inputs, results, pipeline) and pipefunc.map.load_xarray_dataset(run_folder=F) must both "
     "succeed and be Dataset.identical(). Oracle (own dependency tracing over the program AST + the C01 denotation "
     "model fed the same inputs): every MapSpec output is a variable with dims == its MapSpec axes in order and the "
@@ -37,12 +38,15 @@ ASSUMPTIONS = [
     "domain: index sizes globally consistent, mapped roots 1-D or 2-D (rank-3 roots are outside the property's quantifier), sizes 1-3 per index",
     "auto-generated MapSpecs (producer without MapSpec consumed through an index) are not generated: allow_autogen=False",
     "root values are distinct: mapprog's 'r0<1>' strings, or ints from a per-root range of 3-digit numbers (no tracer text contains another 3-digit number)",
+    "tracer functions never return None (allow_none=False): xarray/pandas normalise None inside object arrays to NaN, their missing value, which is not what this property is about",
     "values are compared in canonical nested-list form with str() leaves (container/dtype of DataArray.values is not part of the property)",
     "the order of the level names inside a zipped coordinate's name is not prescribed; the name must be the ':'-join of the level names in level order",
     "a Dataset shares coordinates between variables with the same dimension, so ds[o].coords may also show coordinates that belong to other variables; 'nothing invented' is therefore checked on the dataset: every coordinate must be expected for at least one variable",
-    "optional coordinates (not promised by the property, accepted when labelled correctly): a >= 2-D root indexed on all of its axes; with load_intermediate=True an output produced without mapped inputs ('... -> v[j]') that a variable consumes through an index; such an output may then be listed under coords instead of data_vars (ds[v] must still deliver dims and values)",
-    "with load_intermediate=False no pipeline output may be (part of) a coordinate (documented meaning of the flag)",
-    "a MapSpec output that is a 1-D root's zip partner only through an intermediate (load_intermediate=True) may join that root's MultiIndex",
+    "coordinates beyond the property's promise that are accepted when labelled correctly (right dims, right values): a >= 2-D root indexed on all of its axes; with load_intermediate=True an output produced without mapped inputs ('... -> v[j]') that a variable consumes through an index; such an output may then be listed under coords instead of data_vars (ds[v] must still deliver dims and values)",
+    "load_intermediate ('Whether to load intermediate outputs as coordinates'; tests/map/test_xarray.py::test_to_xarray_from_step): with False no pipeline output may be (part of) a coordinate; with True an output produced without mapped inputs that a variable consumes through an index on all of its axes must be (a level of) a coordinate of that variable",
+    "such an intermediate, when zipped with 1-D roots on the same axis, may join their MultiIndex (the roots are still 'combined into one multi-index')",
+    "functions without MapSpec return a str, a 1-D/2-D ndarray or a list (all are 'outputs without a MapSpec'); a 1-D ndarray may become its own dimension coordinate (xarray's rule for ds[name] = 1-D array, asserted by tests/map/test_xarray.py::test_xarray_from_result)",
+    "construction failures are bucketed by exception signature plus the structural class of the program that explains it: [sliced-axis-never-named], [zip-of-2d-arrays], [single-output-list], [single-output-ndarray-2d]",
 ]
 
 
@@ -204,17 +208,26 @@ def _texts(v) -> list:
     return flat
 
 
-def check_dataset(data: dict, ds, inputs: dict, ref: dict, out: Outcome) -> None:
-    import pandas as pd
+def _fits(parts: list, e: dict, dims: tuple) -> bool:
+    """Can the coordinate made of `parts` on `dims` be the label of the variable with expectation `e`?"""
+    req = dict(e["required"]).get(dims[0], []) if len(dims) == 1 else []
+    opt = {n for n, full in e["optional"].items() if full == dims}
+    return len(set(parts)) == len(parts) and set(req) <= set(parts) <= set(req) | opt
 
+
+def check_dataset(data: dict, ds, inputs: dict, ref: dict, out: Outcome) -> None:
     prog = data["prog"]
     li = data["load_intermediate"]
     prod = mp.func_of_output(prog)
     names = mp.output_names(prog)
     exp = expectations(prog, li)
-    allowed_coords: dict = {}  # coordinate name -> reason
+    exp_li = expectations(prog, True)
+
+    def source(n):
+        return inputs[n] if n in inputs else ref[n]
 
     # ---- variables: presence, dims, values
+    plain_dim_coords = set()
     for o in names:
         fn = prod[o]
         if o not in ds.variables:
@@ -229,117 +242,86 @@ def check_dataset(data: dict, ds, inputs: dict, ref: dict, out: Outcome) -> None
             got = mp.canon(da.values)
             if got != want:
                 out.fail("values-differ-from-map-result", f"{o}: got {str(got)[:200]} want {str(want)[:200]}")
-            out.units += 1
         else:
             v = da.values
             got = mp.canon(v[()] if v.ndim == 0 else v)
             if got != want:
                 out.fail("single-output-value-differs", f"{o}: got {str(got)[:200]} want {str(want)[:200]}")
-            elif v.ndim != len(mp.shape_of(ref[o])):
-                out.fail("single-output-rank-differs", f"{o}: dims {da.dims} for value of shape {mp.shape_of(ref[o])}")
-            if v.ndim >= 1 and o in ds.coords:
-                allowed_coords[o] = "plain array output (its own dimension coordinate)"
-            out.units += 1
+            elif v.ndim not in (0, len(mp.shape_of(ref[o]))):
+                out.fail("single-output-rank-differs", f"{o}: dims {da.dims} for a value of shape {mp.shape_of(ref[o])}")
+            if v.ndim == 1 and tuple(da.dims) == (o,):
+                plain_dim_coords.add(o)  # xarray's own dimension coordinate of a plain 1-D array variable
+        out.units += 1
 
-    # ---- coordinates promised by the property
+    # ---- every coordinate of the dataset: explainable by some variable (nothing invented) and well formed
+    present: dict = {}  # coordinate name -> (parts, dims)
+    good: set = set()
+    for c in ds.coords:
+        co = ds.coords[c]
+        c = str(c)
+        if c in plain_dim_coords:
+            continue
+        parts = c.split(":")
+        dims = tuple(co.dims)
+        if not dims or not any(_fits(parts, e, dims) for e in exp.values()):
+            if not li and dims and any(_fits(parts, e, dims) for e in exp_li.values()):
+                out.fail("intermediate-coordinate-despite-load_intermediate-False", f"{c} on {dims}")
+            else:
+                out.fail("unexpected-coordinate", f"{c} on {dims}; expected per variable: {exp}")
+            continue
+        present[c] = (parts, dims)
+        levels, level_values, idx = _coord_levels(co) if len(dims) == 1 else (None, None, None)
+        if len(parts) == 1:
+            if levels is not None:
+                out.fail("plain-coordinate-is-a-multiindex", c)
+            elif mp.canon(co.values) != mp.canon(source(c)):
+                kind = "root-coordinate" if c in prog["roots"] and len(dims) == 1 else "optional-coordinate"
+                out.fail(f"{kind}-values-differ", f"{c}: {str(mp.canon(co.values))[:200]} want {str(mp.canon(source(c)))[:200]}")
+            else:
+                good.add(c)
+                if not (c in prog["roots"] and len(dims) == 1):
+                    out.labels.append("optional-coordinate:" + ("root2d" if c in prog["roots"] else "intermediate"))
+        elif levels is None:
+            out.fail("zipped-coordinate-not-a-multiindex", f"{c} is {type(idx).__name__}")
+        elif [str(x) for x in levels] != parts:
+            out.fail("zipped-coordinate-name-vs-level-names", f"coordinate {c} has levels {levels}")
+        else:
+            bad = [nm for nm, vals in zip(parts, level_values) if [str(x) for x in vals] != mp.canon(source(nm))]
+            if bad:
+                out.fail("zipped-coordinate-level-values-differ", f"{c}: level(s) {bad}: {level_values} want {[mp.canon(source(nm)) for nm in parts]}")
+            else:
+                good.add(c)
+        out.units += 1
+
+    # ---- what the property promises per variable: its 1-D roots label it, alone or zipped; selection by value
     for o, e in exp.items():
         if o not in ds.variables or tuple(ds[o].dims) != tuple(prod[o]["out_axes"]):
             continue
         da = ds[o]
-        for leaf, full in e["optional"].items():
-            allowed_coords[leaf] = "optional"
         for axis, roots in e["required"]:
-            partners_opt = [n for n, full in e["optional"].items() if full == (axis,)]
-            for r in roots:
-                want_vals = [str(x) for x in inputs[r]]
-                # find the coordinate that carries r
-                carriers = [c for c in da.coords if r in str(c).split(":")]
-                zipped_with = [x for x in roots if x != r]
-                if not carriers:
-                    out.fail("root-coordinate-missing", f"{o}: no coordinate for {r} on {axis}; coords {list(da.coords)}")
-                    continue
-                ok_carrier = None
-                for c in carriers:
-                    parts = str(c).split(":")
-                    if tuple(da.coords[c].dims) != (axis,):
-                        out.fail("root-coordinate-on-wrong-dims", f"{o}: coordinate {c} has dims {da.coords[c].dims}, want ({axis},)")
-                        continue
-                    lev_names, lev_vals, idx = _coord_levels(da.coords[c])
-                    if len(parts) == 1:
-                        if lev_names is not None:
-                            out.fail("plain-coordinate-is-multiindex", f"{o}: {c}")
-                            continue
-                        got_vals = [str(x) for x in idx]
-                        if got_vals != want_vals:
-                            out.fail("root-coordinate-values-differ", f"{o}: {c} = {got_vals} want {want_vals}")
-                            continue
-                        if zipped_with:
-                            continue  # belongs to another variable of the dataset; this variable needs the zipped one
-                        ok_carrier = c
-                    else:
-                        if lev_names is None:
-                            out.fail("zipped-coordinate-not-a-multiindex", f"{o}: {c} is {type(idx).__name__}")
-                            continue
-                        if [str(x) for x in lev_names] != parts:
-                            out.fail("zipped-coordinate-name-vs-level-names", f"{o}: coordinate {c} has levels {lev_names}")
-                            continue
-                        bad = False
-                        for nm, vals in zip(parts, lev_vals):
-                            src = inputs[nm] if nm in inputs else ref.get(nm)
-                            if src is None or [str(x) for x in vals] != [str(x) for x in np.asarray(src, dtype=object).tolist()]:
-                                out.fail("zipped-coordinate-level-values-differ", f"{o}: {c} level {nm} = {vals} want {None if src is None else list(src)}")
-                                bad = True
-                        if bad:
-                            continue
-                        others = set(parts) - {r}
-                        if not set(zipped_with) <= others:
-                            continue  # a MultiIndex of another variable (subset zip)
-                        extra = others - set(zipped_with)
-                        if extra - set(partners_opt):
-                            continue  # belongs to another variable
-                        ok_carrier = c
-                if ok_carrier is None:
-                    kind = "zipped-coordinate-missing" if zipped_with else "root-coordinate-missing"
-                    out.fail(kind, f"{o}: {r} on {axis} (zipped with {zipped_with}); coords {list(da.coords)}")
-                    continue
-                allowed_coords[ok_carrier] = "required"
-                out.units += 1
-                if len(str(ok_carrier).split(":")) > 1:
+            mine = [c for c, (parts, dims) in present.items() if dims == (axis,) and _fits(parts, e, dims) and c in da.coords]
+            if not mine:
+                kind = "zipped-coordinate-missing" if len(roots) > 1 else "root-coordinate-missing"
+                out.fail(kind, f"{o}: {roots} on {axis}; coordinates of the variable: {list(da.coords)}")
+                continue
+            for c in mine:
+                if c not in good:
+                    continue  # reported above
+                parts = present[c][0]
+                if len(parts) > 1:
                     out.labels.append("zipped-coordinate")
-                    if not all(isinstance(p, str) and p in prog["roots"] for p in str(ok_carrier).split(":")):
+                    if any(p not in prog["roots"] for p in parts):
                         out.labels.append("zipped-with-intermediate")
                 else:
-                    out.labels.append("int-coordinate" if r in data.get("ints", {}) else "str-coordinate")
-                _check_selection(o, ok_carrier, axis, da, inputs, ref, out)
-
-    # ---- nothing invented
-    for c in ds.coords:
-        c = str(c)
-        if c in allowed_coords:
-            if allowed_coords[c] == "optional":
-                _check_optional_coord(prog, c, ds, inputs, ref, out)
-            continue
-        parts = c.split(":")
-        if len(parts) > 1 and all(p in allowed_coords or any(p in [x for _, rs in e["required"] for x in rs] for e in exp.values()) for p in parts):
-            # a zipped coordinate none of the checked variables needed in this exact composition
-            out.fail("unexpected-zipped-coordinate", f"{c}; expected per variable {exp}")
-            continue
-        if any(p in names for p in parts) and not li:
-            out.fail("intermediate-coordinate-despite-load_intermediate-False", f"{c}")
-        else:
-            out.fail("unexpected-coordinate", f"{c} dims {ds.coords[c].dims}; expected per variable {exp}")
-
-
-def _check_optional_coord(prog, c, ds, inputs, ref, out) -> None:
-    full = axes_of(prog, c)
-    co = ds.coords[c]
-    if tuple(co.dims) != full:
-        out.fail("optional-coordinate-on-wrong-dims", f"{c}: dims {co.dims} want {full}")
-        return
-    src = inputs[c] if c in inputs else ref[c]
-    if mp.canon(co.values) != mp.canon(src):
-        out.fail("optional-coordinate-values-differ", f"{c}: {str(mp.canon(co.values))[:200]} want {str(mp.canon(src))[:200]}")
-    out.labels.append("optional-coordinate:" + ("root2d" if c in prog["roots"] else "intermediate"))
+                    out.labels.append("int-coordinate" if c in data.get("ints", {}) else "str-coordinate")
+                _check_selection(o, c, axis, da, inputs, ref, out)
+        # documented meaning of load_intermediate=True: intermediate leaves label their consumers as well
+        for leaf, full in e["optional"].items():
+            if leaf in prog["roots"]:
+                continue
+            if not any(dims == full and leaf in parts and _fits(parts, e, dims) and c in da.coords for c, (parts, dims) in present.items()):
+                out.fail("intermediate-coordinate-missing-despite-load_intermediate-True", f"{o}: {leaf} on {full}; coordinates: {list(da.coords)}")
+            out.units += 1
 
 
 def _check_selection(o, cname, axis, da, inputs, ref, out) -> None:
@@ -415,7 +397,6 @@ def body(data) -> Outcome:
     prog = data["prog"]
     li = data["load_intermediate"]
     out.labels = labels_of(data)
-    prod = mp.func_of_output(prog)
     exp = expectations(prog, li)
     out.nontrivial = (
         any(fn["mapspec"] and len(fn["out_axes"]) >= 2 for fn in prog["funcs"])
@@ -429,7 +410,7 @@ def body(data) -> Outcome:
             pipe = mp.build_pipeline(prog)
             res = pipe.map(inputs, run_folder=folder, internal_shapes=mp.internal_shapes_arg(prog),
                            storage=mp.storage_arg(prog), parallel=False)  # fmt: skip
-        except Exception as e:
+        except Exception:
             out.labels.append("n/a:run-refused")  # C01's subject
             out.nontrivial = False
             return out
@@ -474,7 +455,6 @@ def body(data) -> Outcome:
             seen_labels |= set(sub.labels)
         out.labels += sorted(seen_labels)
     finally:
-        gc.collect()
         boot.rm(folder)
     return out
 
@@ -485,7 +465,10 @@ def body(data) -> Outcome:
 
 @st.composite
 def cases(draw, root_pools=(4,), extra_roots=(0,), **kw):
-    prog = draw(mp.map_programs(max_funcs=3, max_rank=2, allow_autogen=False, storages=("file_array", "dict"),
+    kw.setdefault("max_funcs", 3)
+    kw.setdefault("allow_autogen", False)
+    kw.setdefault("allow_none", False)
+    prog = draw(mp.map_programs(max_rank=2, storages=("file_array", "dict"),
                                 root_pool=draw(st.sampled_from(root_pools)), **kw))  # fmt: skip
     # extra 1-D roots zipped into MapSpec functions on an index these already name (construction, never invalid):
     # 'a[i] -> o[i]' becomes 'a[i], r3[i] -> o[i]'
@@ -494,8 +477,17 @@ def cases(draw, root_pools=(4,), extra_roots=(0,), **kw):
                  for a in dict.fromkeys(x for p in fn["params"] if p["spec"] for x in p["spec"] if x is not None)]  # fmt: skip
         if not cands:
             break
-        f, a = draw(st.sampled_from(cands))
         name = f"r{3 + k}"
+        twins = [(f, q) for f, fn in enumerate(prog["funcs"]) if fn["mapspec"] for q, p in enumerate(fn["params"])
+                 if p["spec"] and len(p["spec"]) == 2 and any(x is not None for x in p["spec"])]  # fmt: skip
+        if twins and draw(st.sampled_from([0, 0, 0, 0, 0, 0, 0, 1])):
+            # a 2-D root zipped with a 2-D array the function already takes, same axes, same (possibly ':'-sliced) spec
+            f, q = draw(st.sampled_from(twins))
+            p = prog["funcs"][f]["params"][q]
+            prog["roots"][name] = {"axes": list(axes_of(prog, p["name"])), "kind": "ndarray"}
+            prog["funcs"][f]["params"].insert(q + 1, {"name": name, "spec": list(p["spec"])})
+            continue
+        f, a = draw(st.sampled_from(cands))
         prog["roots"][name] = {"axes": [a], "kind": draw(st.sampled_from(["list", "ndarray"]))}
         takers = [f] + [g for g, fn in enumerate(prog["funcs"]) if g != f and (g, a) in cands and draw(st.integers(0, 3)) == 0]
         for g in takers:
@@ -522,12 +514,48 @@ def cases(draw, root_pools=(4,), extra_roots=(0,), **kw):
     return {"prog": prog, "ints": ints, "load_intermediate": draw(st.sampled_from([True, True, False]))}
 
 
+def reintroduced_index_chains():
+    """Complete enumeration of a small family the random campaigns (<= 3-4 functions) hardly reach: index i labels o0
+    through r0, is reduced away (o1), and is introduced again downstream by another root r2 -- the variables after that
+    depend on r0 as a whole and must be labelled by r2 only.
+
+        f0: r0[i], r1[j] -> o0[<perm of i, j>]      f1: o0[':' on i, j] -> o1[j]
+        f2: o1[j], r2[i] -> o2[<perm of i, j>]      f3: o2[i, :] -> o3[i] | o2[i, j] -> o3[i, j] | o2[:, j] -> o3[j]
+    """
+
+    def fn(name, out, params, out_axes):
+        return {"name": name, "outs": [out], "picker": None, "mapspec": True, "params": params, "out_axes": list(out_axes),
+                "int_axes": [], "ret": "list", "shape_via": "map"}  # fmt: skip
+
+    def par(n, spec):
+        return {"name": n, "spec": spec}
+
+    for ax0, ax2, last, li, ints, storage in itertools.product(
+        (["i", "j"], ["j", "i"]), (["i", "j"], ["j", "i"]), ("keep-i", "keep-both", "keep-j"), (True, False), (True, False), ("file_array", "dict")
+    ):
+        keep = {"keep-i": {"i"}, "keep-both": {"i", "j"}, "keep-j": {"j"}}[last]
+        prog = {
+            "sizes": {"i": 2, "j": 3},
+            "roots": {"r0": {"axes": ["i"], "kind": "list"}, "r1": {"axes": ["j"], "kind": "ndarray"}, "r2": {"axes": ["i"], "kind": "list"}},
+            "funcs": [
+                fn("f0", "o0", [par("r0", ["i"]), par("r1", ["j"])], ax0),
+                fn("f1", "o1", [par("o0", [a if a == "j" else None for a in ax0])], ["j"]),
+                fn("f2", "o2", [par("o1", ["j"]), par("r2", ["i"])], ax2),
+                fn("f3", "o3", [par("o2", [a if a in keep else None for a in ax2])], [a for a in ax2 if a in keep]),
+            ],
+            "storage": storage,
+        }
+        yield {"prog": prog, "ints": {"r2": [431, 402]} if ints else {}, "load_intermediate": li}
+
+
 def campaigns(tier):
     return [
-        Campaign("dataset", body, cases(), quick=400, thorough=8000,
+        Campaign("dataset", body, cases(max_funcs=3 if tier == "quick" else 4), quick=600, thorough=12000,
                  describe="C01 programs (rank <= 2, no autogen): dataset both ways, dims/values/coordinates/selection"),  # fmt: skip
-        Campaign("zip", body, cases(root_pools=(2, 4), extra_roots=(1, 2)), quick=400, thorough=8000,
+        Campaign("zip", body, cases(root_pools=(2, 4), extra_roots=(1, 2)), quick=600, thorough=12000,
                  describe="same plus 1-2 extra 1-D roots zipped into functions on an index they already name: zipped coordinates, zip x outer, zip with intermediates"),  # fmt: skip
+        Campaign("reintroduced-index", body, enumerate=reintroduced_index_chains, quick=0, thorough=0, exhaustive=True,
+                 describe="all 96 four-function chains in which an index is reduced away and introduced again by another root"),  # fmt: skip
     ]
 
 
